@@ -22,6 +22,11 @@ def scenarios(ctx, n):
     out.append(dict(run=1, name="D10-directed", workers=2, batch=1, cap=8, single=False, seed=1,
                     recs=[dict(id=1, topic=0, part=3, off=100, epoch=5, cls="P", delay_us=60000),
                           dict(id=2, topic=0, part=3, off=101, epoch=5, cls="P", delay_us=0)]))
+    # directed: record 1 is kept by its action while records 2 (not decodable) and 3 (empty-ish) of the same partition are refused at In
+    out.append(dict(run=0, name="refused-behind-unfinished", workers=1, batch=1, cap=8, single=True, seed=2,
+                    recs=[dict(id=1, topic=1, part=0, off=10, epoch=1, cls="P", delay_us=80000),
+                          dict(id=2, topic=1, part=0, off=11, epoch=1, cls="R", delay_us=0),
+                          dict(id=3, topic=1, part=0, off=12, epoch=1, cls="R", delay_us=0)]))
     for k in range(n):
         run = k + 2
         nrec = rng.randint(2, 14)
@@ -33,7 +38,7 @@ def scenarios(ctx, n):
             off = base_off.get(tp, rng.choice([0, 1, 5, 2 ** 20, 2 ** 30]))  # trace offsets stay below 2^31 (TLC integers); 2^47-1: packing cases
             base_off[tp] = off + 1
             recs.append(dict(id=i + 1, topic=tp[0], part=tp[1], off=off, epoch=rng.choice([0, 1, 65535]) if i == 0 else recs[0]["epoch"],
-                             cls=rng.choice(["P", "P", "P", "D"]), delay_us=rng.choice([0, 0, 50, 300, 2000])))
+                             cls=rng.choice(["P", "P", "P", "D", "R"]), delay_us=rng.choice([0, 0, 50, 300, 2000])))
         out.append(dict(run=run, name="c10-rnd-%d" % run, workers=rng.choice([1, 2, 3]), batch=rng.choice([1, 2, 3]),
                         cap=rng.choice([2, 8, 32]), single=rng.random() < 0.3, seed=ctx.seed * 1000 + run, recs=recs))
     return out
